@@ -1,0 +1,45 @@
+//go:build verif
+// +build verif
+
+package socket
+
+import (
+	"sync/atomic"
+
+	"github.com/hprose/hprose-golang/v3/rpc/core"
+)
+
+var verifHook atomic.Value // func(point string)
+
+// VerifSetHook installs (or, with nil, removes) a callback invoked at the named
+// yield points of the client transport. Only present in builds with the verif tag.
+func VerifSetHook(h func(point string)) {
+	if h == nil {
+		h = func(string) {}
+	}
+	verifHook.Store(h)
+}
+
+func verifPoint(point string) {
+	if h, ok := verifHook.Load().(func(string)); ok {
+		h(point)
+	}
+}
+
+// VerifPending returns the number of connections the transport holds and the number of
+// pending-call entries registered on them. Only present in builds with the verif tag.
+func VerifPending(t core.Transport) (conns int, pending int) {
+	trans, ok := t.(*Transport)
+	if !ok {
+		return 0, 0
+	}
+	trans.lock.RLock()
+	defer trans.lock.RUnlock()
+	for _, c := range trans.conns {
+		conns++
+		c.lock.Lock()
+		pending += len(c.results)
+		c.lock.Unlock()
+	}
+	return
+}
